@@ -31,7 +31,12 @@ pub fn gen_case(rng: &mut Rng, faults: bool) -> CliCase {
         0..=54 => {
             let mut cfg = GenCfg::draw(rng, false);
             cfg.max_elems = *rng.pick(&[3, 8, 20, 60]);
-            let (_s, docs) = super::gen_history(rng, &cfg, 1);
+            let (_s, mut docs) = super::gen_history(rng, &cfg, 1);
+            if rng.pct(8) {
+                // a large file (many read calls, size hint far off when statx fails): padding inside a comment
+                let n = *rng.pick(&[9_000usize, 70_000, 300_000]);
+                docs[0].epilog.push(crate::dom::Misc::Comment("pad ".repeat(n / 4)));
+            }
             InState::Present(docs[0].ser())
         }
         55..=69 => InState::Present(hostile(rng).0),
@@ -110,7 +115,7 @@ pub fn gen_case(rng: &mut Rng, faults: bool) -> CliCase {
             plan.push(e);
         }
     }
-    CliCase { input_name, input, output_name, output, opt_args, serde_xml_rs, by_name, derive, plan, entropy: rng.u128(), twin_entropy: None }
+    CliCase { input_name, input, output_name, output, opt_args, serde_xml_rs, by_name, derive, plan, entropy: rng.u128(), twin_entropy: None, sweep: false }
 }
 
 /// Ok(Some(text)) = the library accepts the input and this is header + rendering; Ok(None) = the input is at
@@ -224,7 +229,43 @@ pub fn judge(case: &CliCase, expected: &Option<String>, out: &CliOut, ctr: &mut 
     None
 }
 
+/// bounded sweep: the same world once per single fault; the first violating plan is reported
+fn exec_sweep(case: &CliCase, ctr: &mut Ctr) -> Result<Exec, String> {
+    let plans = crate::cli::single_fault_plans();
+    let mut total: Option<Exec> = None;
+    bump(ctr, "sweep.single_fault_cases");
+    for p in plans {
+        let mut c = case.clone();
+        c.sweep = false;
+        c.twin_entropy = None;
+        c.plan = vec![p.clone()];
+        let mut e = exec_case(&c, ctr)?;
+        add(ctr, "sweep.single_fault_runs", 1);
+        if let Some(v) = e.violation.as_mut() {
+            v.detail = format!("single-fault sweep, failing plan {p}: {}", v.detail);
+            return Ok(e);
+        }
+        total = Some(match total {
+            None => e,
+            Some(mut t) => {
+                t.trace = crate::rng::mix(&[t.trace, e.trace]);
+                t.sim_steps += e.sim_steps;
+                t.nontrivial |= e.nontrivial;
+                t
+            }
+        });
+    }
+    let mut t = total.ok_or("empty sweep")?;
+    let mut fp = Fnv::new();
+    fp.str(&case.to_j().to_string());
+    t.fingerprint = fp.0;
+    Ok(t)
+}
+
 pub fn exec_case(case: &CliCase, ctr: &mut Ctr) -> Result<Exec, String> {
+    if case.sweep {
+        return exec_sweep(case, ctr);
+    }
     if case.input_name == case.output_name {
         return Ok(super::skip("same_input_and_output_path"));
     }
@@ -309,6 +350,12 @@ impl Prop for C12 {
     }
     fn gen(&self, seed: u64) -> Scenario {
         let mut rng = Rng::new(seed);
+        if rng.pct(2) {
+            // bounded sweep: one world, every single fault
+            let mut c = gen_case(&mut rng, false);
+            c.sweep = true;
+            return Scenario::Cli(c);
+        }
         let faults = rng.pct(60);
         let mut c = gen_case(&mut rng, faults);
         if !faults && rng.pct(30) {
@@ -323,7 +370,7 @@ impl Prop for C12 {
         }
     }
     fn rule(&self) -> &'static str {
-        "a case = one execution of the release binary in a private sandbox: input present (generated valid document / hostile bytes / non-UTF-8 / empty or element-less) or missing or a directory; output to stdout / new file / existing longer file / path in a missing directory / a directory; argv drawn from every --parser, --sort, --derive combination in all spellings (--opt v, --opt=v, -o v, -ov) with derive strings incl. empty, spaces, commas, non-ASCII; 60% of cases carry a fault plan of 1-3 libc faults (EINTR / errno on open, read, write; short reads and writes down to 1 byte; statx failure), all cases carry the hash entropy; expected bytes computed in-process from the same library under 3 entropies; distinct = distinct (sandbox, argv, plan); non-trivial = an injected fault actually fired (per the shim's report) or the run took a failure path"
+        "a case = one execution of the release binary in a private sandbox: input present (generated valid document / hostile bytes / non-UTF-8 / empty or element-less) or missing or a directory; output to stdout / new file / existing longer file / path in a missing directory / a directory; argv drawn from every --parser, --sort, --derive combination in all spellings (--opt v, --opt=v, -o v, -ov) with derive strings incl. empty, spaces, commas, non-ASCII; 60% of cases carry a fault plan of 1-3 libc faults (EINTR / errno on open, read, write; short reads and writes down to 1 byte; statx failure), all cases carry the hash entropy; 2% of cases are bounded sweeps (one world x each of the 66 single faults: every errno / short count at each of the first 3 opens, 4 reads, 3 writes, plus statx failures); expected bytes computed in-process from the same library under 3 entropies; distinct = distinct (sandbox, argv, plan); non-trivial = an injected fault actually fired (per the shim's report) or the run took a failure path"
     }
     fn real_components(&self) -> Vec<&'static str> {
         vec!["the shipped xml_schema_generator release binary (main.rs, args.rs, clap, std::fs, std::io)", "the library linked into it", "the kernel file system under the sandbox directory"]
